@@ -6,6 +6,9 @@
 
   request tokens (strings are lowercase hex of their UTF-8 bytes, `-` = empty string):
     S<id>=<name>                       subscriber object and its StructName
+    W<id>=<name>                       subscriber object that the APPLICATION has wrapped itself with the public
+                                       MessageTransformSubscriberDecorator (name: type name of what is inside, irrelevant);
+                                       its StructName is that of watermill's decorator type
     P<id>=<name>                       publisher object and its StructName
     h=<name>:<subId>:<subTopic>:<pubSpec>:<pubTopic>:<mwOut>
                                        AddHandler; pubSpec = p<id> | np (AddNoPublisherHandler) | nil (nil publisher)
@@ -23,7 +26,9 @@
     msg  = <mid>/<fns>/<ctx5>/<A|N|T>/<pubs>/<path>  fns = `+`-joined handler indices whose function got the copy, `-` none
                                                      path = subscriber decorators the copy passed, `.`-joined, `-` none
     ctx5 = <handler>:<pubName>:<subName>:<subTopic>:<pubTopic>
-    pubs = - | `+`-joined  P<id>@<topic>!<path>[<item>,…]   path = publisher decorators the call passed
+    pubs = - | `+`-joined  P<id>@<topic>!<path>[<item>,…]   path = publisher decorators the call passed, `.`-joined
+                                       <id>=<ctx5>: decorator id and the context values it READ on the messages (the distinct
+                                       ones, `|`-joined), `-` no decorator
     item = <c|f<k>|m<k>|x>~<u|M>~<ctx5>~<owner>      owner = whose own context the element's context still derives from
 -/
 import WmModel.Basic
@@ -54,6 +59,7 @@ def hexOfAscii (s : String) : String := hexEnc s.toUTF8.toList
 
 def disabledPublisherName : String := hexOfAscii "message.disabledPublisher"
 def nilName : String := hexOfAscii "<nil>"
+def transformDecoratorName : String := hexOfAscii "message.messageTransformSubscriberDecorator"
 
 inductive RawOp | dec (pub : Bool) (id : Nat) | h | run
 
@@ -153,6 +159,10 @@ def addTok (r : Req) (tok : String) : Option Req :=
   | [('E' :: id)] => do
     let id ← natOf id
     pure { r with st := rstep r.st (.subDec id), raw := r.raw ++ [.dec false id] }
+  | ('W' :: id) :: [name] => do
+    let id ← natOf id
+    let _ ← strOf name
+    if r.subs.any (·.1 == id) then none else pure { r with subs := r.subs ++ [(id, transformDecoratorName)] }
   | ('S' :: id) :: [name] => do
     let id ← natOf id
     let name ← strOf name
@@ -175,8 +185,15 @@ def refStr : Ref → String
 
 def pathStr (p : List Nat) : String := if p.isEmpty then "-" else ".".intercalate (p.map toString)
 
+/-- the publisher decorators run inside `Publish`, i.e. after `addHandlerContext(produced…)`: each of them reads on the
+    messages the same context values the publisher finds -/
+def decPathStr (path : List Nat) (c : PubCall) : String :=
+  if path.isEmpty then "-" else
+  let seen := "|".intercalate ((c.items.map fun it => ctx5Str it.2).eraseDups)
+  ".".intercalate (path.map fun i => toString i ++ "=" ++ seen)
+
 def callStr (path : List Nat) (c : PubCall) : String :=
-  "P" ++ toString c.pub ++ "@" ++ tokOfStr c.topic ++ "!" ++ pathStr path ++ "[" ++
+  "P" ++ toString c.pub ++ "@" ++ tokOfStr c.topic ++ "!" ++ decPathStr path c ++ "[" ++
     ",".intercalate ((c.items.zip c.owners).map fun ((r, x), o) =>
       refStr r ++ "~u~" ++ ctx5Str x ++ "~" ++ (match o with | some y => refStr y | none => "-")) ++ "]"
 
@@ -207,7 +224,7 @@ structure OItem where
 structure OCall where
   pub : String
   topic : String
-  path : String
+  path : List (String × List (List String))    -- decorator id, the context values it read (distinct ones)
   items : List OItem
 
 structure OMsg where
@@ -233,8 +250,16 @@ def parseCall (cs : List Char) : Option OCall :=
         match splitOnChar '!' tp, its.reverse with
         | [t, path], ']' :: body =>
           let body := body.reverse
-          if body.isEmpty then some ⟨String.ofList p, String.ofList t, String.ofList path, []⟩
-          else ((splitOnChar ',' body).mapM parseItem).map fun is => ⟨String.ofList p, String.ofList t, String.ofList path, is⟩
+          let path? : Option (List (String × List (List String))) :=
+            if path == ['-'] then some [] else (splitOnChar '.' path).mapM fun e =>
+              match splitOnChar '=' e with
+              | [i, cs] => some (String.ofList i, (splitOnChar '|' cs).map fun c => (splitOnChar ':' c).map String.ofList)
+              | _ => none
+          match path? with
+          | none => none
+          | some path =>
+            if body.isEmpty then some ⟨String.ofList p, String.ofList t, path, []⟩
+            else ((splitOnChar ',' body).mapM parseItem).map fun is => ⟨String.ofList p, String.ofList t, path, is⟩
         | _, _ => none
       | _ => none
     | _ => none
@@ -315,7 +340,8 @@ def judgeMsg (i : Nat) (h : HCfg) (pd sd : List Nat) (d : Delivery) (m : OMsg) :
         else if m.calls.any (·.topic != tokOfStr h.pubTopic) then "violated:publish_topic"
         else if items.map (·.ref) != outs then "violated:publish_order_or_identity"
         else if items.any (·.flag != "u") then "violated:modified"
-        else if m.calls.any (·.path != pathStr pd) then "violated:publisher_decorators_once"
+        else if m.calls.any (fun c => c.path.map (·.1) != pd.map toString) then "violated:publisher_decorators_once"
+        else if m.calls.any (fun c => c.path.any fun e => e.2.any fun cx => !ctxOk h cx) then "violated:ctx_at_publisher_decorator"
         else if items.any (fun it => it.owner != it.ref) then "violated:context_replaced"
         else if items.any (fun it => !ctxOk h it.ctx) then "violated:ctx_on_produced"
         else "ok"
